@@ -178,6 +178,24 @@ def pathConfOk (e : Env) (pc : PathConf) : Bool :=
     | .ph k ex => k != kd.1 || (!(ex == Re.star Cls.notSlash) && ex.accepts e kd.2)
     | _ => true)))
 
+/-- the TEMPLATE half of `pathConfOk`: every path template follows `pathTplOk`.  This is all that
+    C05 (`c05_roundtrip`, `c05_injective`) asks of a configuration besides `pathsExclusive`: value
+    mappings and defaults enter C05 through the Sid (`C05.Admissible.back` / `.values`), so a
+    configuration with two disk words for one sid value, or a default for a free template key, is
+    covered although it does not follow `pathConfOk` (which `c06_total` needs). -/
+def pathTplsOk (e : Env) (pc : PathConf) : Bool :=
+  pc.templates.all (fun lt => pathTplOk e lt.2)
+
+theorem pathTplsOk_of_confOk (e : Env) (pc : PathConf) (h : pathConfOk e pc = true) :
+    pathTplsOk e pc = true := by
+  simp only [pathConfOk, Bool.and_eq_true] at h
+  exact h.1.1.2
+
+theorem pathTplsOk_tpl (e : Env) (pc : PathConf) (h : pathTplsOk e pc = true) (l : Str) (t : Template)
+    (hm : (l, t) ∈ pc.templates) : pathTplOk e t = true := by
+  simp only [pathTplsOk, List.all_eq_true] at h
+  exact h (l, t) hm
+
 /-! ### ADDED (C05c): mutually exclusive templates
 
   `tplExcl e syms A B` decides a sufficient condition for "no path that `B` renders from
